@@ -3,7 +3,27 @@
 //! bookkeeping (only used for messages).
 #[derive(Debug)]
 pub struct Error<E>(pub E);
+/// The path at which an error occurred (only used for messages: opaque here).
+#[derive(Debug, Clone, Default)]
+pub struct Path;
+/// State for tracking the path during deserialization.
+#[derive(Debug, Default)]
+pub struct Track;
+impl Track {
+    pub fn new() -> Self {
+        Track
+    }
+    pub fn path(self) -> Path {
+        Path
+    }
+}
 impl<E> Error<E> {
+    pub fn new(_path: Path, inner: E) -> Self {
+        Error(inner)
+    }
+    pub fn path(&self) -> &Path {
+        &Path
+    }
     pub fn inner(&self) -> &E {
         &self.0
     }
